@@ -39,7 +39,7 @@ def main():
                 evidence_file=f'evidence/{pid}.json',
                 replay_cmd_template='./check --replay {path}',
                 engine='vc',
-                level_claimed=dict(category='proof', text=c['text'], design_ref=c.get('design_ref', 'DESIGN.md section 6')),
+                level_claimed=dict(category=c.get('category', 'proof'), text=c['text'], design_ref=c.get('design_ref', 'DESIGN.md section 6')),
                 level_note=COMMON_NOTE + ' ' + c.get('note', ''),
                 technique=c['technique'],
             ))
